@@ -165,6 +165,33 @@ def uniform_cubic_integrals(chk):
             "identity", badw, file=U.SPLINES, func="BSplines._build_integrals")
 
 
+def integrals_not_memoised_on_summary(chk):
+    """the stored integrals are a function of ALL break points: a memo table may not be keyed on a summary of them"""
+    fn = chk.func(U.SPLINES, "BSplines._build_integrals")
+    hits = []
+    for n in ast.walk(fn):
+        if isinstance(n, ast.If) and isinstance(n.test, ast.Compare) and len(n.test.ops) == 1 and isinstance(n.test.ops[0], ast.In) \
+                and any(isinstance(x, ast.Return) for x in n.body):
+            key = n.test.left
+            if isinstance(key, ast.Name):
+                d = [a for a in ast.walk(fn) if isinstance(a, ast.Assign) and src(a.targets[0]) == key.id]
+                key = d[0].value if len(d) == 1 else key
+            # entries of the key that pick single elements of an array of break points / knots
+            picks = [x for x in ast.walk(key) if isinstance(x, ast.Subscript) and isinstance(x.slice, (ast.Constant, ast.UnaryOp))
+                     and src(x.value).split(".")[-1] in ("breaks", "knots", "_knots", "_breaks")]
+            whole = [x for x in ast.walk(key) if isinstance(x, ast.Call) and src(x.func) in ("tuple", "bytes") or
+                     (isinstance(x, ast.Call) and isinstance(x.func, ast.Attribute) and x.func.attr in ("tobytes", "tostring"))]
+            hits.append((n, key, picks, whole))
+    bad = [(n, key, picks) for n, key, picks, whole in hits if picks and not whole]
+    chk.ob("Q3-integrals-not-memoised", bad[0][0] if bad else fn, "no memo table keyed on a summary of the break points",
+           (not bad) if (not hits or bad or all(w for _, _, _, w in hits)) else None,
+           "the integrals are computed from the knots of this very space" if not bad else
+           f"the integrals are taken from a table keyed on `{src(bad[0][1])[:90]}`: the key holds only {[src(p_) for p_ in bad[0][2]]} of the "
+           "break points, so a non-uniform space built after another one with the same ends, first cell and cell count receives that "
+           "other space's integrals and its quadrature weights no longer integrate its splines",
+           file=U.SPLINES, func="BSplines._build_integrals", nontrivial=False)
+
+
 def run(chk):
     chk.explanation = (
         "Narrow mechanism claim: quadrature weights are the transposed solve, with the interpolation factorisation, of the stored "
@@ -176,4 +203,5 @@ def run(chk):
     chk.in_file(U.INTERP)
     weights_mechanism(chk)
     uniform_cubic_integrals(chk)
+    integrals_not_memoised_on_summary(chk)
     chk.floor("Q", 9)
